@@ -103,7 +103,7 @@ def memlib_split(inner):
 def run(ctx):
     _main_limit[0] = 150 if ctx.tier == "quick" else 1500
     return memlib.run_family(
-        ctx, PID, make_cases,
+        ctx, PID, make_cases, wire_every=2,
         rule="seeded random programs (1-40 commands + a final XRANGE - + of every key) of XADD / XRANGE over 1-3 keys on the "
              "virtual clock: same-millisecond bursts, clock not advancing, explicit ids at last and last+-1 in both components, "
              "0-0, 0-1, max-uint64 components, ms-only and ms-* ids, malformed ids; NOMKSTREAM on missing/existing keys, MAXLEN in "
